@@ -305,7 +305,15 @@ def run(case):
     objs = [(K(m["key"]), build_member(m, case["wseed"])) for m in members]
     axes = None if case["axes"] is None else tuple(tuple(a) for a in case["axes"])
     try:
-        col = NDCollection(objs, aligned_axes=axes, meta={"c": 1})
+        coll_cls = NDCollection
+        if case["wseed"] % 4 == 2:
+            # a subclass (an instrument package's own collection): what is derived from it is again of the subclass
+            class TrackedCollection(NDCollection):
+                @property
+                def n_members(self):
+                    return len(self)
+            coll_cls = TrackedCollection
+        col = coll_cls(objs, aligned_axes=axes, meta={"c": 1})
     except Exception as e:
         res["impl"] = {"init_err": err_kind(e), "steps": []}
         res["oracle"] = f"constructor refused valid aligned axes {case['axes']}: {type(e).__name__}: {str(e)[:100]}"
@@ -360,6 +368,8 @@ def run(case):
                 elif k == "mixed":
                     out = col[(list(col.keys())[0], 0)]
                 err = None
+                if isinstance(out, NDCollection) and type(out) is not type(col):
+                    fails.append(f"{k} of a {type(col).__name__} returned a {type(out).__name__}")
             except Exception as e:
                 err, out = err_kind(e), None
             tags.append(f"{k}:{err or 'ok'}")
